@@ -126,11 +126,11 @@ def run(ctx, col, tier):
                         "V_frustum = pi h (r1^2 + r1 r2 + r2^2)/3; V_lens = pi (r1+r2-d)^2 "
                         "(d^2 + 2d(r1+r2) - 3(r1-r2)^2)/(12 d)",
                         "the eps tolerance of the guards is treated as 0"]
-    forms(ctx, col)
-    lens_cells(ctx, col)
-    concentric(ctx, col)
-    helpers(ctx, col)
-    ladders(ctx, col)
+    col.guard(forms, ctx, col)
+    col.guard(lens_cells, ctx, col)
+    col.guard(concentric, ctx, col)
+    col.guard(helpers, ctx, col)
+    col.guard(ladders, ctx, col)
 
 
 # --------------------------------------------------------------------------- plain formulas
